@@ -64,6 +64,11 @@ def run_call(spec):
 
         o = RandomGreedyOptimizer(seed=S, parallel=False, **kw)
         return [o(inputs, output, sd), repr(o.best_flops)]
+    if kind == "rgo_percall":
+        from cotengra.pathfinders.path_basic import RandomGreedyOptimizer
+
+        o = RandomGreedyOptimizer(seed=S, parallel=False, max_repeats=4)
+        return [o.ssa_path(inputs, output, sd, **kw), repr(o.best_flops)]
     if kind == "rg_track":
         from cotengra.pathfinders.path_basic import optimize_random_greedy_track_flops
 
